@@ -414,3 +414,16 @@ pub fn packed_add<const B: usize, const PRE: usize, const E: usize, const M: usi
     kani::cover!(m == M);
     core::mem::forget(set);
 }
+
+/// Display of a DnaString of concrete length LEN (symbolic content): the bases as text.
+pub fn display<const LEN: usize>() {
+    use std::fmt::Write;
+    let (s, raw) = any_ds_len::<1>(LEN);
+    let mut w = crate::slice_ops::Sink { buf: [0; 16], n: 0 };
+    let _ = write!(w, "{}", s);
+    assert!(w.n == LEN);
+    let j = any_index(LEN);
+    assert!(w.buf[j] == b"ACGT"[rb(&raw, j) as usize]);
+    kani::cover!(rb(&raw, j) == 2);
+    core::mem::forget(s);
+}
